@@ -9,6 +9,7 @@ import (
 	"sort"
 	"strings"
 	"sync"
+	"time"
 
 	"reduction.dev/reduction/dkv/storage"
 	"reduction.dev/reduction/storage/locations"
@@ -44,6 +45,14 @@ type Disk struct {
 	OnPublish  func(node, path string, data []byte)
 	OnRemove   func(node, path string, data []byte)
 	pendingDel []pendingDelete
+
+	// Slow publication (fault kind "stall-write", rate FaultRate["stall-write"]): a write of a
+	// file whose name ends in StallSuffix blocks, in simulated time, until ReleaseStalls is
+	// called (the harness calls it at a moment it wants the write to land in, e.g. while the
+	// next deployment is under way) or StallMax has passed.
+	StallSuffix string
+	StallMax    time.Duration
+	stallCh     chan struct{}
 }
 
 type IOEvent struct {
@@ -78,6 +87,15 @@ func (d *Disk) gate(node, op, p string) {
 	if dead {
 		simrt.ParkForever("io:" + node)
 	}
+	if op == "write" && d.StallSuffix != "" && strings.HasSuffix(p, d.StallSuffix) && d.fault("stall-write") {
+		d.mu.Lock()
+		if d.stallCh == nil {
+			d.stallCh = make(chan struct{})
+		}
+		ch := d.stallCh
+		d.mu.Unlock()
+		simrt.Select("io.stall:"+path.Base(p), false, simrt.RecvCase[struct{}](ch), simrt.RecvCase(time.After(d.StallMax)))
+	}
 	simrt.Yield("io." + op + ":" + path.Base(p))
 	d.mu.Lock()
 	dead = d.dead[node]
@@ -97,6 +115,16 @@ func (d *Disk) fault(kind string) bool {
 		return true
 	}
 	return false
+}
+
+// ReleaseStalls lets every stalled write proceed.
+func (d *Disk) ReleaseStalls() {
+	d.mu.Lock()
+	if d.stallCh != nil {
+		close(d.stallCh)
+		d.stallCh = nil
+	}
+	d.mu.Unlock()
 }
 
 // Kill fences a node: all its later storage calls block for ever (its
